@@ -677,3 +677,113 @@ Proof.
   destruct (str_in k declared) eqn:E; [|exact IH]. cbn [assoc].
   destruct (str_eqb k_cc k) eqn:E2; [|exact IH]. apply str_eqb_eq in E2. subst. congruence.
 Qed.
+
+(* ================================================================ extension parameters; whether the hooks run *)
+(* the loop never looks at the members of a request: the first hook is applied to EVERY request *)
+Lemma post_parse_runs h hs r : post_parse (h :: hs) (PReq r) = post_parse hs (h r).
+Proof. reflexivity. Qed.
+
+(* hooks in front that leave a request as it is (whatever it carries) do not keep a later hook from running *)
+Lemma post_parse_transparent pre hs r :
+  (forall h, In h pre -> h r = PReq r) -> post_parse (pre ++ hs) (PReq r) = post_parse hs (PReq r).
+Proof.
+  induction pre as [|h pre IH]; intro H; [reflexivity|]. cbn [app post_parse].
+  rewrite (H h (or_introl eq_refl)). apply IH. intros h' Hin. apply H. now right.
+Qed.
+
+Lemma sget_skip k x r : assoc k x = None -> sget k (x ++ r) = sget k r.
+Proof. intro H. unfold sget. now rewrite assoc_app, H. Qed.
+
+Lemma sget_pk_members p : sget k_cc (pk_members p) = fst p /\ sget k_ccm (pk_members p) = snd p.
+Proof. destruct p as [[c|] [m|]]; split; reflexivity. Qed.
+
+Lemma sget_tk_members cv t : sget k_cv (tk_members cv t) = cv /\ sget k_ccm (tk_members cv t) = t.
+Proof. destruct cv, t; split; reflexivity. Qed.
+
+(* the authorization hook applied to a request = post_authn_parse on the two parameters it reads by name *)
+Lemma authz_leg_x_reads cf ce r :
+  authz_leg_x cf ce r = authn_leg cf ce (sget k_cc r) (sget k_ccm r).
+Proof.
+  unfold authz_leg_x. rewrite post_parse_runs. cbn [post_parse]. unfold authn_hook.
+  destruct (authn_leg cf ce (sget k_cc r) (sget k_ccm r)) as [st|e|] eqn:E.
+  - apply authn_leg_ok in E as (-> & _ & _). cbn [snd].
+    assert (sget k_ccm ((k_ccm, PvS (recorded_method (sget k_ccm r))) :: r) = Some (recorded_method (sget k_ccm r))) as ->
+      by (unfold sget; cbn [assoc]; now rewrite str_eqb_refl).
+    assert (sget k_cc ((k_ccm, PvS (recorded_method (sget k_ccm r))) :: r) = sget k_cc r) as ->
+      by (unfold sget; cbn [assoc]; now rewrite (proj1 k_cc_ne_ccm)).
+    reflexivity.
+  - destruct e; reflexivity.
+  - exfalso. unfold authn_leg in E.
+    repeat match type of E with context [if ?b then _ else _] => destruct b end;
+    try discriminate; destruct (norm (sget k_cc r)); try discriminate;
+    repeat match type of E with context [if ?b then _ else _] => destruct b end; discriminate.
+Qed.
+
+(* extension parameters of the authorization request have no say: what is recorded for the code is what the
+   assembled PKCE pair alone decides *)
+Lemma authz_extras_irrelevant cf ce d ax :
+  assoc k_cc ax = None -> assoc k_ccm ax = None ->
+  authz_leg_x cf ce (ax ++ pk_members (assembled d)) = recorded_d cf ce d.
+Proof.
+  intros H1 H2. rewrite authz_leg_x_reads, !sget_skip by assumption.
+  destruct (sget_pk_members (assembled d)) as [-> ->]. reflexivity.
+Qed.
+
+Section PX.
+  Variable HB : N -> pystr -> pystr.
+
+  Lemma token_hook_reads st tx cv t :
+    assoc k_cv tx = None -> assoc k_ccm tx = None ->
+    post_parse [token_hook HB st] (PReq (tx ++ tk_members cv t))
+    = match token_leg HB st cv t with
+      | Ok _ => PReq (tx ++ tk_members cv t)
+      | Err (Refused n) => PErr n
+      | Err e => PRaise e
+      | Unmodelled => PRaise TypeError
+      end.
+  Proof.
+    intros H1 H2. rewrite post_parse_runs. cbn [post_parse]. unfold token_hook.
+    rewrite !sget_skip by assumption. destruct (sget_tk_members cv t) as [-> ->]. reflexivity.
+  Qed.
+
+  (* THE statement: forall extras, flow (rq + extras) = flow rq *)
+  Lemma flow_x_extras_irrelevant cf ce d ax tx cv t :
+    assoc k_cc ax = None -> assoc k_ccm ax = None -> assoc k_cv tx = None -> assoc k_ccm tx = None ->
+    flow_x HB cf ce d ax tx cv t = flow_d HB cf ce d cv t.
+  Proof.
+    intros A1 A2 T1 T2. unfold flow_x, flow_d, flow. rewrite (authz_extras_irrelevant _ _ _ _ A1 A2).
+    unfold recorded_d. destruct (authn_leg cf ce (fst (assembled d)) (snd (assembled d))) as [st|e|]; [|reflexivity|reflexivity].
+    rewrite (token_hook_reads _ _ _ _ T1 T2). destruct (token_leg HB st cv t) as [u|e|]; [reflexivity| |reflexivity].
+    destruct e; reflexivity.
+  Qed.
+
+  (* extension parameters change neither verdict: same flow with other extension parameters *)
+  Lemma flow_x_any_extras cf ce d ax tx ax' tx' cv t :
+    assoc k_cc ax = None -> assoc k_ccm ax = None -> assoc k_cv tx = None -> assoc k_ccm tx = None ->
+    assoc k_cc ax' = None -> assoc k_ccm ax' = None -> assoc k_cv tx' = None -> assoc k_ccm tx' = None ->
+    flow_x HB cf ce d ax tx cv t = flow_x HB cf ce d ax' tx' cv t.
+  Proof. intros. now rewrite !flow_x_extras_irrelevant. Qed.
+
+  (* with PKCE essential a request without a challenge gets no code, whatever else it carries *)
+  Lemma flow_x_essential cf ce d ax tx cv t :
+    assoc k_cc ax = None -> assoc k_ccm ax = None -> assoc k_cv tx = None -> assoc k_ccm tx = None ->
+    essential_eff (pc_essential cf) ce = true -> fst (assembled d) = None ->
+    flow_x HB cf ce d ax tx cv t = AzRefused 1.
+  Proof.
+    intros A1 A2 T1 T2 He Hc. rewrite flow_x_extras_irrelevant by assumption. unfold flow_d, flow.
+    rewrite authn_leg_missing; [reflexivity|exact He|now rewrite Hc].
+  Qed.
+
+  (* the interactive variant *)
+  Lemma flow_ix_extras_irrelevant cf ce d lists others ax tx cv t :
+    resumable lists others -> resumable lists (others ++ ax) ->
+    (forall st, recorded_d cf ce d = Ok st -> to_query (held others st) <> None) ->
+    (forall st, recorded_d cf ce d = Ok st -> to_query (held (others ++ ax) st) <> None) ->
+    assoc k_cv tx = None -> assoc k_ccm tx = None ->
+    flow_ix HB cf ce d lists others ax tx cv t = flow_i HB cf ce d lists others cv t.
+  Proof.
+    intros R R' Q Q' T1 T2. unfold flow_ix. rewrite !sget_skip by assumption.
+    destruct (sget_tk_members cv t) as [-> ->].
+    now apply resumed_others_irrelevant.
+  Qed.
+End PX.
